@@ -196,8 +196,9 @@ def run_check(chk, argv=None):
             json.dump(cex, f, indent=1, default=str)
         vio_paths.append(p)
         print("VIOLATION property=%s replay=%s" % (pid, p))
-        print("  obligation=%s inputs=%s observed=%s" % (cex["obligation"], json.dumps(cex["inputs"], sort_keys=True, default=str)[:400],
-                                                          json.dumps(cex.get("observed"), default=str)[:600]))
+        print("  obligation=%s inputs=%s observed=%s%s" % (cex["obligation"], json.dumps(cex["inputs"], sort_keys=True, default=str)[:400],
+                                                            json.dumps(cex.get("observed"), default=str)[:600],
+                                                            (" info=" + json.dumps(cex["info"], default=str)[:300]) if cex.get("info") else ""))
     inconclusive = total.ob_unknown
     if inconclusive or total.truncated or soft_unreproduced:
         print("INCONCLUSIVE property=%s unknown_obligations=%d truncated_paths=%d model_side_conditions_not_reproduced=%d" % (
